@@ -669,6 +669,7 @@ class Flow:
         self.cfg = fi.cfg
         self.defs_at = {}       # node id -> [Def]
         self._between = {}
+        self._inl_memo = {}
         self._collect()
         self._solve()
 
@@ -771,6 +772,7 @@ class Flow:
 
     def _inline_at(self, expr, at_nid, depth, stop):
         flow = self
+        import copy as _copy
 
         class T(ast.NodeTransformer):
             def visit_Lambda(self, node):
@@ -783,6 +785,15 @@ class Flow:
             def visit_Name(self, node):
                 if not isinstance(node.ctx, ast.Load) or depth <= 0 or node.id in stop:
                     return node
+                mkey = (node.id, at_nid, frozenset(stop))
+                if mkey in flow._inl_memo:
+                    hit = flow._inl_memo[mkey]
+                    return node if hit is None else _copy.deepcopy(hit)
+                res = self._visit_Name(node)
+                flow._inl_memo[mkey] = None if res is node else res
+                return res
+
+            def _visit_Name(self, node):
                 ds = flow.rd_in[at_nid].get(node.id, set())
                 if len(ds) != 1:
                     return node
@@ -810,7 +821,24 @@ class Flow:
                 return node
 
         import copy
+        import copy as _copy
         return T().visit(copy.deepcopy(expr)) if not isinstance(expr, ast.Name) else T().visit_Name(expr)
+
+    def resolve(self, expr, at_ast=None):
+        """Follow plain aliases `a = b` / temporaries back to the defining expression (arguments are not expanded)."""
+        at = expr if at_ast is None else at_ast
+        e = expr
+        for _ in range(12):
+            if not isinstance(e, ast.Name):
+                break
+            try:
+                d = self.unique_def(e.id, at)
+            except AnalysisError:
+                break
+            if d is None or d.kind != 'assign' or d.path != () or d.value is None:
+                break
+            e, at = d.value, d.stmt
+        return e
 
     def sources(self, expr, at_ast=None, depth=12):
         """Transitive closure of expressions `expr` may derive from (through local definitions).
